@@ -53,6 +53,8 @@ type Tier struct {
 	Fired   map[string]int
 	Dials   int
 	Refused int
+	// FaultOwner restricts fault indexing to backend connections dialled for that client
+	FaultOwner string
 }
 
 // BackendConn is the simulated-memcached side of one backend connection.
@@ -202,6 +204,14 @@ func (w *World) Arm(faults []Fault) {
 	}
 }
 
+// ArmFor installs the fault plan for the backend connections of one client only.
+func (w *World) ArmFor(faults []Fault, owner string) {
+	w.Arm(faults)
+	for _, t := range w.Tiers {
+		t.FaultOwner = owner
+	}
+}
+
 // Disarm removes all planned faults.
 func (w *World) Disarm() {
 	for _, t := range w.Tiers {
@@ -293,7 +303,7 @@ func (w *World) procOne(b *BackendConn) {
 	}
 	w.Stat.BackendReqs++
 	idx := -1
-	if t.Armed {
+	if t.Armed && (t.FaultOwner == "" || t.FaultOwner == b.Owner) {
 		idx = t.Seen
 		t.Seen++
 	}
